@@ -196,6 +196,22 @@ class C07(InterpProp):
         o.pop('_subs', None)
         return o
 
+    def shrink_candidates(self, case):
+        # the history is a sequence of pairs (the same operation on either twin): whole pairs are dropped, and the
+        # charts stay as they are (they are twins of one another)
+        p = case.payload
+        ops = p['ops']
+        n = (len(ops) - 2) // 2
+        for keep in (n // 2, n - 1):
+            if 0 < keep < n:
+                q = copy.deepcopy(p)
+                q['ops'] = ops[:2 + 2 * keep]
+                yield q
+        for i in range(len(ops) - 2, 1, -2):
+            q = copy.deepcopy(p)
+            del q['ops'][i:i + 2]
+            yield q
+
     def oracle(self, case, obs, res):
         for k, (op, ob) in enumerate(zip(case.payload['ops'], obs['obs'])):
             if op[0] == 'create' and isinstance(ob.get('r'), dict) and ob['r'].get('initial_context_modified'):
